@@ -7,26 +7,41 @@ import numpy as np
 import pandas as pd
 from scipy.stats import norm
 
+import gen
 from common import fx, unfx, rq, dec_list, close
 
 REQUIRED = ['counts_of_rows', 'counts_of_completion', 'width_one', 'frechet_closed_form', 'bounds_valid',
-            'bounds_sharp', 'binary_counts', 'contains_rd', 'contains_reported_rd',
+            'bounds_sharp', 'binary_counts', 'contains_rd', 'contains_reported_rd', 'frechet_relabel',
             'frechet_counts_generated']
 RULE = ('binary exposure: every 2x2 table with cells 0..B (B=6 quick, 8 thorough) and both groups non-empty, each with '
         'and without extra rows missing the exposure, the outcome or both (outcomes / exposures of the incomplete rows '
-        'varied), rows shuffled, two codings of (index level, reference); every completion of the unobserved potential '
-        'outcomes enumerated literally for n <= 10 (12 thorough) and by (u, v) count classes for all tables; random large '
-        'tables (cells up to 5000) against the closed form; frames with 3-4 exposure levels for the model '
-        'correspondence.  Every frame is built in one of 6 index kinds (default, reversed, repeated labels as after '
-        'pd.concat, string ids, float, constant label) x 5 dtype kinds (float, int64, int8/uint8, bool outcome, object) '
-        'and read after one of 4 call histories (fit; fit then summary(3) / summary(1) / summary(3) and summary(0)); one '
-        'frame in five is shared: another RiskDifference is fitted first on a second exposure column (with its own '
-        'missing values) of the same DataFrame object; the frame is snapshotted around all calls; any exception on a '
-        'table with four positive cells is a failure.  distinct = distinct (table, missing pattern, coding, options); non-trivial = the fit reports bounds '
-        '(all four cells positive) and the table is not symmetric (a != d or b != c) or has incomplete rows')
+        'varied), rows shuffled; every completion of the unobserved potential outcomes enumerated literally for n <= 10 '
+        '(12 thorough) and by (u, v) count classes for all tables; random large tables (cells up to 5000) against the '
+        'closed form; frames with 3-4 exposure levels (codes from a pool with negative, fractional and large values) for '
+        'the model correspondence.  Options of every frame drawn independently from the rng: (index level, reference) from '
+        '20 codings (0/1 and its mirror take half of the tables; reference coded larger, negative codes on either side, both '
+        'negative, fractional, far apart, large); the reference handed over as int, float or numpy scalar; 6 index kinds '
+        '(default, reversed, repeated labels as after pd.concat, string ids, float, constant label); 12 column-storage kinds: '
+        'float, int64, int8/uint8, bool outcome, object (None and NaN mixed) and the pandas nullable / categorical ones '
+        '(Int64, Int8/UInt8, Int32 x boolean, Float64, Int64 x float, float x Int64, category) which carry the incomplete '
+        'rows as pd.NA (a kind that cannot hold the data falls back to float / Float64); 4 call histories (fit; fit then '
+        'summary(3) / summary(1) / summary(3) and summary(0)); one frame in four shared: another RiskDifference is fitted '
+        'first on a second exposure column (named <exposure>0, with its own missing values) of the same DataFrame object; '
+        'exposure and outcome column names drawn half of the time from a pool of scratch names (a static list + every '
+        'identifier, keyword, attribute and short string constant of class RiskDifference in the tree under test) or made '
+        'substrings of one another, with 0-3 unused columns named the same way (prefix / suffix / case variants of the used '
+        'names; contents with their own missing values), column order shuffled.  Two sweeps: storage kind x coding on small '
+        'frames with incomplete rows in both arms; every pool name as the exposure and as the outcome column.  The frame is '
+        'snapshotted around all calls; any exception on a table with four positive cells, and a missing result row for a '
+        'level present in the data, is a failure.  distinct = distinct (table, missing pattern, coding, options); non-trivial '
+        '= the fit reports bounds (all four cells positive) and the table is not symmetric (a != d or b != c) or has '
+        'incomplete rows')
 ASSUMPTIONS = ['pandas comparison semantics on a float column: NaN == x is False, NaN != x is True, notnull/dropna '
                'identify exactly the NaN rows (measured on every frame by an independent pure-python count)',
-               'the sample of the property is the set of rows with exposure and outcome observed (n of the code)']
+               'the sample of the property is the set of rows with exposure and outcome observed (n of the code)',
+               'pandas nullable / categorical / object columns: a comparison with a missing entry (pd.NA, None, NaN) selects '
+               'nothing in .loc for == and, joined with notnull(), nothing for != ; dropna removes exactly those rows '
+               '(measured on every such frame against the pure-python counts)']
 
 TOL = 1e-12   # the code does <= 6 float operations on numbers of magnitude <= 1 (error ~1e-16); attainable causal
 #               risk differences are multiples of 1/n with n <= 3e4, so 1e-12 separates rounding from a wrong formula
@@ -37,9 +52,21 @@ def nanlist(xs):
 
 
 INDEX_KINDS = ['default', 'shuffled', 'repeated', 'string', 'float', 'constant']
-DTYPE_KINDS = ['float', 'int64', 'int8', 'bool_outcome', 'object']
+DTYPE_KINDS = gen.NUMPY_DTYPE_KINDS + gen.NULLABLE_DTYPE_KINDS
 HISTORIES = ['fit', 'fit+summary3', 'fit+summary1', 'fit+summary3+summary0']
-DEFAULT_OPTS = {'index': 'default', 'dtype': 'float', 'history': 'fit', 'shared': False}
+REF_TYPES = ['py', 'float', 'numpy']
+DEFAULT_NAMES = {'exp': 'exp', 'dis': 'dis', 'extras': [], 'order': None}
+DEFAULT_OPTS = {'index': 'default', 'dtype': 'float', 'history': 'fit', 'shared': False, 'names': DEFAULT_NAMES,
+                'ref_type': 'py'}
+CODINGS = gen.BINARY_CODINGS
+_POOL = []
+
+
+def pool():
+    """scratch-name pool: static names + the names class RiskDifference uses in the tree under test"""
+    if not _POOL:
+        _POOL.extend(gen.name_pool('zepid/base.py', 'RiskDifference'))
+    return _POOL
 
 
 def make_index(kind, n):
@@ -59,32 +86,45 @@ def make_index(kind, n):
     raise KeyError(kind)
 
 
+def second_exposure_name(names):
+    """name of the other analysis' exposure column in a shared frame: the exposure name with a suffix (a superstring)"""
+    taken = {names['exp'], names['dis']} | {x[0] for x in names['extras']}
+    nm = names['exp'] + '0'
+    while nm in taken:
+        nm += '0'
+    return nm
+
+
 def build_df(e, y, opts):
-    """the caller's frame: columns exp, dis (and exp0, a second exposure with its own missing values, when the
-    frame is shared between two analyses); dtype / index kind as asked (dtype kinds other than float need complete data)"""
-    complete = all(v is not None for v in e) and all(v is not None for v in y)
-    dt = opts['dtype'] if complete else 'float'
-    if dt == 'float':
-        df = pd.DataFrame({'exp': nanlist(e), 'dis': nanlist(y)})
-    elif dt == 'int64':
-        df = pd.DataFrame({'exp': [int(v) for v in e], 'dis': [int(v) for v in y]})
-    elif dt == 'int8':
-        df = pd.DataFrame({'exp': np.array(e, dtype=np.int8), 'dis': np.array(y, dtype=np.uint8)})
-    elif dt == 'bool_outcome':
-        df = pd.DataFrame({'exp': np.array(e, dtype=np.int32), 'dis': np.array(y, dtype=np.bool_)})
-    elif dt == 'object':
-        df = pd.DataFrame({'exp': pd.Series([int(v) for v in e], dtype=object),
-                           'dis': pd.Series([int(v) for v in y], dtype=object)})
-    else:
-        raise KeyError(dt)
+    """the caller's frame: the exposure and outcome columns under the names and in the storage kind asked for
+    (gen.typed_columns: a kind that cannot hold the data falls back to float / Float64), unused columns with names of
+    their own, a second exposure with its own missing values when the frame is shared between two analyses; columns in
+    the order drawn; index kind as asked"""
+    names = opts.get('names') or DEFAULT_NAMES
+    ce, cy, dt = gen.typed_columns(e, y, opts['dtype'])
+    cols = {names['exp']: ce, names['dis']: cy}
+    for nm, seed in names['extras']:
+        cols[nm] = gen.extra_column(seed, e, y)
     if opts['shared']:
-        # another exposure column of the same frame, missing on rows where `exp` is observed (and vice versa)
+        # another exposure column of the same frame, missing on rows where the first is observed (and vice versa)
         n = len(e)
-        df['exp0'] = [float('nan') if (i % 3 == 1) else float(i % 2) for i in range(n)]
+        cols[second_exposure_name(names)] = [float('nan') if (i % 3 == 1) else float(i % 2) for i in range(n)]
+    order = list(cols)
+    if names.get('order') is not None:
+        order = [order[i] for i in np.random.default_rng(names['order']).permutation(len(order))]
+    df = pd.DataFrame({c: cols[c] for c in order})
     idx = make_index(opts['index'], len(df))
     if idx is not None:
         df.index = idx
     return df, dt
+
+
+def typed_reference(ref, kind):
+    if kind == 'float':
+        return float(ref)
+    if kind == 'numpy':
+        return np.int64(ref) if float(ref).is_integer() else np.float64(ref)
+    return ref
 
 
 def frame_snapshot(df):
@@ -98,6 +138,7 @@ def fit_impl(e, y, ref, opts=None):
     RiskDifference on another exposure column.  Every exception is reported (kind), none escapes."""
     import zepid
     opts = dict(DEFAULT_OPTS, **(opts or {}))
+    names = opts.get('names') or DEFAULT_NAMES
     df, dt = build_df(e, y, opts)
     before = frame_snapshot(df)
     first = None
@@ -105,23 +146,33 @@ def fit_impl(e, y, ref, opts=None):
         if opts['shared']:
             other = zepid.RiskDifference(reference=0)
             try:
-                other.fit(df, exposure='exp0', outcome='dis')
+                other.fit(df, exposure=second_exposure_name(names), outcome=names['dis'])
                 first = 'ok'
             except (ValueError, ZeroDivisionError) as ex:       # a zero cell in the other analysis: irrelevant here
                 first = type(ex).__name__
-        obj = zepid.RiskDifference(reference=ref)
-        obj.fit(df, exposure='exp', outcome='dis')
+        obj = zepid.RiskDifference(reference=typed_reference(ref, opts.get('ref_type', 'py')))
+        obj.fit(df, exposure=names['exp'], outcome=names['dis'])
         for step in opts['history'].split('+')[1:]:
             obj.summary(decimal=int(step[len('summary'):]))
     except Exception as ex:                                      # noqa: BLE001
         return {'status': 'err', 'kind': type(ex).__name__, 'msg': str(ex)[:120], 'dtype': dt,
                 'frame_untouched': frame_snapshot(df) == before}
-    out = {}
-    for lab in obj.results.index:
-        if not lab.startswith('Ref:'):
-            r = obj.results.loc[lab]
-            out[float(lab)] = (float(r['RiskDifference']), float(r['LowerBound']), float(r['UpperBound']))
-    return {'status': 'ok', 'levels': out, 'n': int(obj.n), 'dtype': dt, 'first_analysis': first,
+    out, odd = {}, []
+    try:
+        for k, lab in enumerate(obj.results.index):
+            if not str(lab).startswith('Ref:'):
+                r = obj.results.iloc[k]
+                try:
+                    key = float(lab)
+                except (TypeError, ValueError):        # a row labelled with something that is not a level of the data
+                    odd.append(str(lab))
+                    continue
+                out[key] = (float(r['RiskDifference']), float(r['LowerBound']), float(r['UpperBound']))
+        n_rep = int(obj.n)
+    except Exception as ex:                                      # noqa: BLE001
+        return {'status': 'err', 'kind': type(ex).__name__, 'msg': 'reading results: ' + str(ex)[:100], 'dtype': dt,
+                'frame_untouched': frame_snapshot(df) == before}
+    return {'status': 'ok', 'levels': out, 'odd_labels': odd, 'n': n_rep, 'dtype': dt, 'first_analysis': first,
             'frame_untouched': frame_snapshot(df) == before}
 
 
@@ -160,6 +211,31 @@ def enc_opt(xs, f):
     return ','.join('_' if x is None else f(x) for x in xs) or '[]'
 
 
+def nat_codes(e, lvl, ref):
+    """the exposure column as the model sees it: levels are labels (Nat) compared for equality only.  Codes that are
+    all non-negative integers go to the driver as they are; otherwise the distinct codes (with lvl and ref) are
+    numbered in increasing order (an injective relabelling; `frechet_relabel` in Props/C19.lean: the model's bounds
+    do not depend on it)."""
+    vals = sorted({v for v in e if v is not None} | {lvl, ref})
+    if all(float(v).is_integer() and v >= 0 for v in vals):
+        m = {v: int(v) for v in vals}
+    else:
+        m = {v: k for k, v in enumerate(vals)}
+    return [None if v is None else m[v] for v in e], m[lvl], m[ref], m
+
+
+def pandas_counts(df, names, lvl):
+    """gate H on the frame actually handed to zEpid: the pandas idioms (==, != with notnull, dropna) counted on its
+    columns; None when pandas itself refuses one of them"""
+    try:
+        ex, di = df[names['exp']], df[names['dis']]
+        return (int(df.loc[(ex == lvl) & (di == 1)].shape[0]), int(df.loc[(ex == lvl) & (di == 0)].shape[0]),
+                int(df.loc[(ex != lvl) & ex.notnull() & (di == 1)].shape[0]),
+                int(df.dropna(subset=[names['exp'], names['dis']]).shape[0]))
+    except Exception:                                            # noqa: BLE001
+        return None
+
+
 def evaluate(chk, drv, rng, e, y, lvl, ref, tag, enum_limit, judge_binary=True, opts=None):
     """one frame, one (index level, reference): gates H, D, K.  Returns the list of failed predicates (for replay)."""
     failed = []
@@ -175,6 +251,7 @@ def evaluate(chk, drv, rng, e, y, lvl, ref, tag, enum_limit, judge_binary=True, 
             failed.append('K:' + what)
 
     opts = dict(DEFAULT_OPTS, **(opts or {}))
+    names = opts.get('names') or DEFAULT_NAMES
     res = fit_impl(e, y, ref, opts)
     a, b, yo, n = counts(e, y, lvl)
     c, d, _, _ = counts(e, y, ref)
@@ -195,8 +272,19 @@ def evaluate(chk, drv, rng, e, y, lvl, ref, tag, enum_limit, judge_binary=True, 
     if not h_ok:
         chk.discard('pandas NaN comparison semantics differ from the assumption')
         return failed
-    for k in ('index', 'dtype', 'history'):
+    if res.get('dtype') != 'float':
+        # the same idioms on the typed columns (nullable: comparisons give pd.NA, which .loc must read as False)
+        chk.h_checked += 1
+        if pandas_counts(build_df(e, y, opts)[0], names, lvl) != (a, b, yo, n):
+            chk.discard('pandas semantics of ==, !=, notnull, dropna on %s columns differ from the assumption' % res.get('dtype'))
+            return failed
+    for k in ('index', 'dtype', 'history', 'ref_type'):
         chk.count('%s=%s' % (k, res.get('dtype') if k == 'dtype' else opts[k]))
+    chk.count('coding=%s' % ('multi' if not judge_binary else '%g/%g' % (lvl, ref)))
+    chk.count('names=%s' % ('default' if (names['exp'], names['dis']) == ('exp', 'dis') else 'drawn'))
+    chk.count('extra_columns', len(names['extras']))
+    if nmiss and res.get('dtype') in gen.NULLABLE_DTYPE_KINDS + ['object']:
+        chk.count('incomplete_rows_in_non_float_columns')
     if opts['shared']:
         chk.count('shared_frame')
     # ---- D: the caller's frame is the data the bounds are about -- it must be the same after every call
@@ -208,11 +296,16 @@ def evaluate(chk, drv, rng, e, y, lvl, ref, tag, enum_limit, judge_binary=True, 
         if res['status'] == 'err' and not (zero_cell and res.get('kind') in ('ValueError', 'ZeroDivisionError')):
             # every cell positive (or an exception other than the count functions' rejection): valid input refused
             D(False, 'RiskDifference raised %s on a valid frame: %s' % (res.get('kind'), res.get('msg')))
+        if res['status'] == 'ok' and a + b > 0:
+            # the fit went through and the data hold rows at this level with the outcome observed: the results must
+            # have its row (the bounds the property speaks of are the ones reported for it)
+            D(False, 'results have a row for every non-reference level present in the data')
         chk.count('not_reported_' + (res.get('kind') or 'level-absent'))
         if drv is not None and res['status'] == 'err' and a + b > 0 and c + d > 0:
             # the model of the fit must refuse the same frames (zero cell -> risk_difference raises)
-            rep, line = drv.ask('frame', cls='RD', ref=int(ref), alpha=fx(0.05), px=fx(0.975), pz=fx(norm.ppf(0.975)),
-                                e=enc_opt(e, lambda v: str(int(v))), d=enc_opt(y, lambda v: str(int(v))))
+            ne, nl, nr, _ = nat_codes(e, lvl, ref)
+            rep, line = drv.ask('frame', cls='RD', ref=nr, alpha=fx(0.05), px=fx(0.975), pz=fx(norm.ppf(0.975)),
+                                e=enc_opt(ne, lambda v: str(int(v))), d=enc_opt(y, lambda v: str(int(v))))
             K(rep['status'] == 'err', 'frame RD: model rejects what the fit rejects', rep)
         return failed
     chk.count('reported')
@@ -242,8 +335,9 @@ def evaluate(chk, drv, rng, e, y, lvl, ref, tag, enum_limit, judge_binary=True, 
             chk.count('multilevel_rd_outside_interval(outside the property)')
     # ---- K: model (exact Rat, and Float via the frame op) vs implementation
     if drv is not None:
-        es, ds = enc_opt(e, lambda v: str(int(v))), enc_opt(y, lambda v: str(int(v)))
-        rep, line = drv.ask('frechetq', e=es, d=ds, lvl=int(lvl))
+        ne, nl, nr, _ = nat_codes(e, lvl, ref)
+        es, ds = enc_opt(ne, lambda v: str(int(v))), enc_opt(y, lambda v: str(int(v)))
+        rep, line = drv.ask('frechetq', e=es, d=ds, lvl=nl)
         okq = rep['status'] == 'ok'
         if okq:
             ql, qu = Fraction(rep['lower']), Fraction(rep['upper'])
@@ -251,14 +345,20 @@ def evaluate(chk, drv, rng, e, y, lvl, ref, tag, enum_limit, judge_binary=True, 
             if judge_binary:
                 okq = okq and (ql, qu) == (Fraction(-(b + yo), n), Fraction(n - b - yo, n))
         K(okq, 'frechetq: exact model bounds vs LowerBound/UpperBound', rep)
-        rep, line = drv.ask('frame', cls='RD', ref=int(ref), alpha=fx(0.05), px=fx(0.975), pz=fx(norm.ppf(0.975)),
+        rank = {v: j for j, v in enumerate(sorted({v for v in ne if v is not None} | {nl, nr}))}
+        if rep['status'] == 'ok' and any(v != j for v, j in rank.items()):
+            # theorem frechet_relabel, executed: the model's bounds on the codes numbered 0, 1, 2, ... are the same
+            rep2, line = drv.ask('frechetq', e=enc_opt([None if v is None else rank[v] for v in ne], str), d=ds, lvl=rank[nl])
+            K(rep2['status'] == 'ok' and (rep2.get('lower'), rep2.get('upper')) == (rep['lower'], rep['upper']),
+              'frechet_relabel: model bounds unchanged by renumbering the levels', rep2)
+        rep, line = drv.ask('frame', cls='RD', ref=nr, alpha=fx(0.05), px=fx(0.975), pz=fx(norm.ppf(0.975)),
                             e=es, d=ds)
         okf = rep['status'] == 'ok'
         if okf:
             lv = dec_list(rep['levels'], int)
-            okf = int(lvl) in lv and int(rep['n']) == res['n']
+            okf = nl in lv and int(rep['n']) == res['n']
             if okf:
-                j = lv.index(int(lvl))
+                j = lv.index(nl)
                 okf = (close(unfx(dec_list(rep['frl'], str)[j]), lo, rtol=1e-13, atol=1e-15) and
                        close(unfx(dec_list(rep['fru'], str)[j]), hi, rtol=1e-13, atol=1e-15) and
                        close(unfx(dec_list(rep['point'], str)[j]), rd, rtol=1e-13, atol=1e-15))
@@ -269,7 +369,7 @@ def evaluate(chk, drv, rng, e, y, lvl, ref, tag, enum_limit, judge_binary=True, 
             u = [int(v) for v in rng.integers(0, 2, size=len(comp))]
             s1 = sum(yi if ai else ui for (ai, yi), ui in zip(comp, u))
             s0 = sum(ui if ai else yi for (ai, yi), ui in zip(comp, u))
-            rep, line = drv.ask('crd', e=es, d=ds, lvl=int(lvl), u=','.join(map(str, u)))
+            rep, line = drv.ask('crd', e=es, d=ds, lvl=nl, u=','.join(map(str, u)))
             oks = (rep['status'] == 'ok' and rep['completion'] == '1' and int(rep['n']) == n and
                    Fraction(rep['rd']) == Fraction(s1 - s0, n) and
                    Fraction(rep['attainlo']) == Fraction(rep['lower']) and
@@ -300,10 +400,11 @@ def build_frame(rng, a, b, c, d, lvl, ref, miss):
 
 def gen_multi(rng):
     nlev = int(rng.integers(3, 5))
-    pool = [0, 1, 2, 3, 5, 8, 9, 16, 17, 33]
-    levels = sorted(int(v) for v in rng.choice(pool, size=nlev, replace=False))
+    # non-negative integer codes half of the time, otherwise any of the pool (negative, fractional, large)
+    pool_ = [0, 1, 2, 3, 5, 8, 9, 16, 17, 33] if rng.uniform() < 0.5 else gen.MULTI_LEVEL_POOL
+    levels = sorted((int(v) if float(v).is_integer() else float(v)) for v in rng.choice(pool_, size=nlev, replace=False))
     n = int(rng.integers(30, 120))
-    e = [int(v) for v in rng.choice(levels, size=n)]
+    e = [levels[int(j)] for j in rng.integers(0, nlev, size=n)]
     risk = {l: float(rng.uniform(0.2, 0.8)) for l in levels}
     y = [int(rng.uniform() < risk[l]) for l in e]
     pm = float(rng.choice([0.0, 0.1, 0.25]))
@@ -312,35 +413,74 @@ def gen_multi(rng):
     return e, y, levels
 
 
-def random_opts(rng):
+def random_opts(rng, names=True):
     return {'index': INDEX_KINDS[int(rng.integers(0, len(INDEX_KINDS)))],
             'dtype': DTYPE_KINDS[int(rng.integers(0, len(DTYPE_KINDS)))],
-            'history': HISTORIES[int(rng.integers(0, len(HISTORIES)))], 'shared': bool(rng.uniform() < 0.25)}
+            'history': HISTORIES[int(rng.integers(0, len(HISTORIES)))], 'shared': bool(rng.uniform() < 0.25),
+            'ref_type': REF_TYPES[int(rng.integers(0, len(REF_TYPES)))],
+            'names': gen.draw_names(rng, pool()) if names else DEFAULT_NAMES}
+
+
+def sweep_frame(rng):
+    """a small table with four positive cells, unequal arms and incomplete rows of every kind in both arms"""
+    a, b, c, d = (int(v) for v in rng.integers(1, 5, size=4))
+    if a + b == c + d:
+        d += 1
+    return (a, b, c, d), (int(rng.integers(1, 3)), int(rng.integers(2, 5)), int(rng.integers(1, 3)))
 
 
 def run(chk, drv, rng, tier):
     B = 6 if tier == 'quick' else 8
     enum_limit = 10 if tier == 'quick' else 12
-    codings = [(1, 0), (2, 5)]          # (index level, reference); the second has the reference coded larger
     patterns = [(0, 0, 0), (2, 1, 1), (1, 2, 0)]
     k = 0
     for a, b, c, d in itertools.product(range(0, B + 1), repeat=4):
         if a + b == 0 or c + d == 0:
             continue
         for miss in (patterns if tier == 'thorough' else [patterns[0], patterns[1 + (a + b + c + d) % 2]]):
-            lvl, ref = codings[k % 2]
+            # the first two codings (0/1 and its mirror) take half of the tables, the other 18 share the rest
+            lvl, ref = CODINGS[k % 2] if (k // 2) % 2 == 0 else CODINGS[2 + (k // 4) % (len(CODINGS) - 2)]
             k += 1
             e, y = build_frame(rng, a, b, c, d, lvl, ref, miss)
-            opts = {'index': INDEX_KINDS[k % len(INDEX_KINDS)], 'dtype': DTYPE_KINDS[(k // 2) % len(DTYPE_KINDS)],
-                    'history': HISTORIES[(k // 3) % len(HISTORIES)], 'shared': k % 5 == 0}
-            evaluate(chk, drv, rng, e, y, lvl, ref, 'table', enum_limit, opts=opts)
+            evaluate(chk, drv, rng, e, y, lvl, ref, 'table', enum_limit, opts=random_opts(rng))
     chk.extra['exhaustive'] = False
     chk.extra['exhaustive_tables_cells_up_to'] = B
+    # configuration sweep 1: every storage kind x every coding x reference type, on frames with incomplete rows
+    reps = 1 if tier == 'quick' else 4
+    for _ in range(reps):
+        for dt in DTYPE_KINDS:
+            for ci, (lvl, ref) in enumerate(CODINGS):
+                (a, b, c, d), miss = sweep_frame(rng)
+                e, y = build_frame(rng, a, b, c, d, lvl, ref, miss)
+                o = dict(random_opts(rng, names=False), dtype=dt, ref_type=REF_TYPES[(ci + DTYPE_KINDS.index(dt)) % 3],
+                         history='fit', shared=False)
+                evaluate(chk, drv, rng, e, y, lvl, ref, 'dtype-x-coding', enum_limit, opts=o)
+    # configuration sweep 2: every name of the pool as the outcome column and as the exposure column (the other column
+    # keeps its default name or is a superstring / substring of it), with unused columns named from the pool
+    names_pool = pool()
+    chk.extra['name_pool_size'] = len(names_pool)
+    for _ in range(reps):
+        for nm in names_pool:
+            for role in ('dis', 'exp'):
+                (a, b, c, d), miss = sweep_frame(rng)
+                lvl, ref = CODINGS[int(rng.integers(0, 4))]
+                e, y = build_frame(rng, a, b, c, d, lvl, ref, miss)
+                nmz = gen.draw_names(rng, names_pool, p_hostile=0.0)
+                other = 'dis' if role == 'exp' else 'exp'
+                nmz[role] = nm
+                if rng.uniform() < 0.3:
+                    rel = gen.related_names(nm)
+                    nmz[other] = rel[int(rng.integers(0, len(rel)))]
+                if nmz['exp'] == nmz['dis']:
+                    nmz[other] += '_'
+                nmz['extras'] = [x for x in nmz['extras'] if x[0] not in (nmz['exp'], nmz['dis'])]
+                o = dict(random_opts(rng, names=False), names=nmz, history='fit')
+                evaluate(chk, drv, rng, e, y, lvl, ref, 'names', enum_limit, opts=o)
     # random large tables
     for _ in range(150 if tier == 'quick' else 1500):
         a, b, c, d = (int(v) for v in rng.integers(1, 5000 if rng.uniform() < 0.5 else 60, size=4))
         miss = tuple(int(v) for v in rng.integers(0, 40, size=3)) if rng.uniform() < 0.7 else (0, 0, 0)
-        lvl, ref = codings[int(rng.integers(0, 2))]
+        lvl, ref = CODINGS[int(rng.integers(0, len(CODINGS)))]
         e, y = build_frame(rng, a, b, c, d, lvl, ref, miss)
         evaluate(chk, drv, rng, e, y, lvl, ref, 'large', enum_limit, opts=random_opts(rng))
     # exposure with 3-4 levels: correspondence of the model with the code (pooled comparison group) and width only;
